@@ -6,6 +6,7 @@ collections.ChainMap (trusted) they imply the property by induction over the
 history of mutator/derivation calls, see `EXPLANATION`."""
 
 import ast
+import re
 from .. import symex
 from ..core import (AnalysisError, short, unparse, iter_own, call_name, call_recv, kwarg,
                     is_self_attr, attr_chain, atomic_facts, always_exits, parents,
@@ -116,6 +117,9 @@ def run(ctx):
                    'by a strictly longer one, and never exits early', 1)
     ctx.rule('M2d', 'positions passed to list.insert() for the category list are never negative (insert(-1) is '
                     'not append)', 2)
+    ctx.rule('M2e', 'add_context_category places the new category at index(name) for insert_before, index(name)+1 for '
+                    'insert_after, and at 0 / len(list) when the name is unknown (per assignment of the position, under the '
+                    'facts that govern it)', 4)
     ctx.rule('M9', 'closure under derivation: a derived database is built only through operations that accept '
                    'every category name the source can hold (automatically generated names included)', 1)
     ctx.rule('M8', 'an attribute computed from other attributes of the database and remembered (a derived '
@@ -354,6 +358,46 @@ def run(ctx):
                            % unparse(e_), construct='add_context_category: ' + short(st_, 60))
     if not n_idx and None not in idx_names:
         ctx.unknown('M2d', m, acf, 'no insert position found', construct='add_context_category: insert positions')
+    # M2e: which position each placement option computes
+    _sx = __import__('pxv.symex', fromlist=['x'])
+    n_pl = 0
+    for st_ in ast.walk(acf):
+        if not (isinstance(st_, ast.Assign) and any(isinstance(t_, ast.Name) and t_.id in idx_names for t_ in st_.targets)):
+            continue
+        for cs_, e_ in _sx._split_ifexp(st_.value):
+            facts = set()
+            for t_, p_ in list(atomic_facts(st_)) + list(cs_):
+                for a_, ap_ in _sx._atoms(t_, p_):
+                    facts.add((unparse(a_), ap_))
+            for opt, off in (('insert_after', 1), ('insert_before', 0)):
+                if (opt, True) not in facts:
+                    continue
+                lst = None
+                inlist = None
+                for t_, p_ in facts:
+                    mm = re.match(r'%s (not in|in) (.+)$' % opt, t_)
+                    if mm:
+                        lst = mm.group(2)
+                        inlist = (mm.group(1) == 'in') == p_
+                if inlist is None:
+                    continue
+                n_pl += 1
+                txt = unparse(e_).replace(' ', '')
+                idx = '%s.index(%s)' % (lst, opt)
+                if inlist:
+                    want = [idx + '+1', '1+' + idx] if off else [idx]
+                else:
+                    want = ['len(%s)' % lst] if off else ['0']
+                ctx.decide('M2e', txt in [w_.replace(' ', '') for w_ in want], m, st_,
+                           '%s, name %s: position %s' % (opt, 'found' if inlist else 'not found', unparse(e_)),
+                           'with %s=<a name %s the list> the new category is inserted at %s, not at %s: it lands on the wrong '
+                           'side of the named category, so lookups prefer the wrong definition (a fall-back category '
+                           'registered "after" the defaults shadows them: \\section*[..]{..} is parsed with the fall-back '
+                           'signature)' % (opt, 'in' if inlist else 'not in', unparse(e_), want[0]),
+                           construct='add_context_category: %s %s' % (opt, 'found' if inlist else 'not found'))
+    if n_pl < 4:
+        ctx.unknown('M2e', m, acf, 'only %d of the 4 placement cases (insert_before/insert_after x found/not found) recognised'
+                    % n_pl, construct='add_context_category: placement cases')
 
     # ---------------------------------------------------------------- M8
     _derived_cache_invalidation(ctx, m, meths)
